@@ -296,3 +296,101 @@ def std_callee_audit(clause, eng, world, region=None, body_pred=None, what="regi
             continue
         clause.ob(True, "std-callee %s" % name, "", nontrivial=False)
     return n
+
+
+# ------------------------------------------------------------------ static MIR scans
+def place_prefix_types(prog, body, place):
+    """yield (type idx before projection elem i, elem) along a place"""
+    ti = body.local_ty(place["l"])
+    for pr in place["p"]:
+        yield ti, pr
+        if ti is None:
+            continue
+        t = prog.types[ti]
+        if pr == "deref":
+            if t["k"] in ("ref", "ptr"):
+                ti = t["inner"]
+            elif t["k"] == "adt" and t["path"] == "std::boxed::Box" and t["args"]:
+                ti = t["args"][0]
+            else:
+                ti = None
+        elif isinstance(pr, dict) and "f" in pr:
+            ti = pr["ty"]
+        elif isinstance(pr, dict) and "downcast" in pr:
+            pass
+        else:
+            ti = t["inner"] if t["k"] in ("slice", "array") else None
+
+
+def static_field_writes(prog, adt_path, field_idx):
+    """all MIR assignments / call destinations / &mut borrows of field `field_idx` of struct `adt_path`
+    (closure captures included: a closure holding `&mut self.field` shows up as a &mut borrow)"""
+    out = []
+    for bp, b in prog.bodies.items():
+        for bi, blk in enumerate(b.blocks):
+            def touches(place):
+                for ti, pr in place_prefix_types(prog, b, place):
+                    if isinstance(pr, dict) and pr.get("f") == field_idx and ti is not None and prog.types[ti]["k"] == "adt" \
+                            and prog.types[ti]["path"] == adt_path:
+                        return True
+                return False
+            for st in blk["stmts"]:
+                if st["k"] == "assign":
+                    if touches(st["place"]):
+                        out.append((bp, bi, "assign", b.loc(bi)))
+                    rv = st["rv"]
+                    if rv["k"] == "ref" and rv.get("mut") and touches(rv["place"]):
+                        out.append((bp, bi, "&mut", b.loc(bi)))
+            t = blk["term"]
+            if t["k"] == "call" and touches(t["dest"]):
+                out.append((bp, bi, "call-dest", b.loc(bi)))
+    return out
+
+
+def bool_call_true_edges(eng, ev):
+    """for a call event whose result is a bool tested by a switchInt: the supergraph edges taken when it is true"""
+    body = eng.prog.bodies[ev.body]
+    blk = body.blocks[ev.bb]
+    t = blk["term"]
+    dest = t["dest"]
+    if dest["p"]:
+        return None
+    cur = t.get("t")
+    holders = set([dest["l"]])
+    seen = set()
+    while cur is not None and cur not in seen:
+        seen.add(cur)
+        b2 = body.blocks[cur]
+        for st in b2["stmts"]:
+            if st["k"] == "assign" and st["rv"]["k"] == "use":
+                op = st["rv"]["op"]
+                p = op.get("copy") or op.get("move")
+                if p is not None and not p["p"] and p["l"] in holders and not st["place"]["p"]:
+                    holders.add(st["place"]["l"])
+        t2 = b2["term"]
+        if t2["k"] == "switch":
+            p = t2["op"].get("copy") or t2["op"].get("move")
+            if p is not None and not p["p"] and p["l"] in holders:
+                true_targets = [t2["otherwise"]] + [b for v, b in t2["targets"] if int(v) != 0]
+                false_targets = [b for v, b in t2["targets"] if int(v) == 0]
+                return {"switch": (ev.ctx, cur),
+                        "true": [((ev.ctx, cur), (ev.ctx, b)) for b in true_targets if b not in false_targets],
+                        "false": [((ev.ctx, cur), (ev.ctx, b)) for b in false_targets]}
+            return None
+        if t2["k"] == "goto":
+            cur = t2["t"]
+        else:
+            return None
+    return None
+
+
+def event_at(eng, node):
+    for e in eng.events:
+        if e.node == node:
+            return e
+    return None
+
+
+def field_sym(eng, root, path, rng=None):
+    """symbol id of the lazily-initialised integer at a memory place (or None)"""
+    return eng.sym_ids.get(("init", root, tuple(path)))
